@@ -398,10 +398,18 @@ def wrapper_outcome(data, read_size, allowed=None, sample_each=False):
     src = io.BytesIO(data)
     w = fi.InspectWrapper(src, allowed_formats=allowed)
     history = []
+    k = 0
     while True:
         chunk = w.read(read_size)
+        k += 1
         if sample_each:
             history.append(insp.safe(lambda: None if w.format is None else str(w.format)))
+            if k in (1, 3):
+                # an empty chunk in the middle of the stream must not change anything
+                try:
+                    w.read(0)
+                except Exception as e:
+                    history.append('EXC:' + type(e).__name__)
         if not chunk:
             break
     w.close()
